@@ -171,6 +171,68 @@ class SymE:
     def opaque(self, what, **info):
         return Opaque(what, **info)
 
+    def fold(self, name, data, init, step, lo=None, hi=None, additive=False):
+        """fold of `step` over the byte sequence `data` starting from `init`, as an uninterpreted state function
+        name(array, j): state(a,0)=init, state(a,j)=step(state(a,j-1), a[j-1]).  Only the base case and the range
+        [lo,hi) of the states are asserted here; unfoldings are instantiated where needed with fold_state(...,
+        unfold=True) (quantifier-free instances of the defining equation).  Mirrors the executable definition
+        used in concrete mode."""
+        st = self.st
+        if additive:
+            sq = to_seq(data)
+            if sq.items is not None:
+                acc = init
+                for x in sq.items:
+                    acc = step(acc, x)
+                return acc
+            if sq.parts:
+                acc = init
+                for p_ in sq.parts:
+                    acc = acc + self.fold(name, p_, 0, step, lo, hi, additive=True)
+                return acc
+        f = z3.Function(name, z3.ArraySort(z3.IntSort(), z3.IntSort()), z3.IntSort(), z3.IntSort())
+        arr = V.seq_array(data)
+        n = L.length(data)
+        key = (name, arr.sexpr())
+        done = st.ghost.setdefault('folds', {})
+        if key not in done:
+            done[key] = (f, arr, init, step, lo, hi)
+            st.assume(f(arr, 0) == zint(init))
+            if lo is not None:
+                j = z3.Int(st.fresh_name('k'))
+                st.assume(z3.ForAll([j], z3.And(f(arr, j) >= lo, f(arr, j) < hi)), heavy=True)
+        st.ghost.setdefault('fold_defs', {})[name] = (init, step, lo, hi)
+        if lo is not None:
+            st.assume(z3.And(f(arr, zint(n)) >= lo, f(arr, zint(n)) < hi))      # instance of the range axiom at n
+        return mk(f(arr, zint(n)))
+
+    def fold_state(self, name, data, j, unfold=False):
+        """name(array of data, j) for an intermediate index (loop invariants).  unfold=True also asserts the
+        instance of the defining equation at j:  j > 0 and 0 <= a[j-1] < 256  =>  state(a,j) = step(state(a,j-1), a[j-1])"""
+        st = self.st
+        f = z3.Function(name, z3.ArraySort(z3.IntSort(), z3.IntSort()), z3.IntSort(), z3.IntSort())
+        arr = V.seq_array(data)
+        jz = zint(j)
+        if unfold:
+            init, step, lo, hi = st.ghost['fold_defs'][name]
+            prev, el = f(arr, jz - 1), arr[jz - 1]
+            if not isinstance(arr, z3.ArrayRef) or z3.is_quantifier(arr):
+                el = z3.simplify(arr[jz - 1]) if not V.contains_bv(arr[jz - 1]) else arr[jz - 1]
+            elem_ok = z3.And(el >= 0, el < 256)
+            st.solver.push()
+            st.solver.add(elem_ok, jz > 0)
+            if lo is not None:
+                st.solver.add(prev >= lo, prev < hi)
+            try:
+                body = step(mk(prev), mk(el))
+            finally:
+                st.solver.pop()
+            inst = z3.Implies(z3.And(jz > 0, elem_ok), f(arr, jz) == zint(body))
+            if lo is not None:
+                inst = z3.And(inst, f(arr, jz) >= lo, f(arr, jz) < hi, prev >= lo, prev < hi)
+            st.assume(inst, heavy=True)
+        return mk(f(arr, jz))
+
     def as_bytes(self, seq):
         """a sequence of byte values as a bytes object of the program"""
         return to_seq(seq).as_kind('bytes')
